@@ -127,6 +127,24 @@ func runStress(seed int64) Result {
 	var vds jsonschema.Schema
 	json.Unmarshal([]byte(`{"properties":{"a":{"type":"integer","default":1},"b":{"type":"string","default":"x"},
 	  "c":{"type":"array","default":[1],"items":{"type":"integer","default":2}},"d":{"default":null}},"default":{}}`), &vds)
+	// container defaults below a Resolved whose defaults were validated at Resolve time: every
+	// instance must receive its OWN copy (anything decoded once and handed to every instance would
+	// be written by the nested defaults of concurrent calls, and by the callers afterwards)
+	var ods jsonschema.Schema
+	json.Unmarshal([]byte(`{"properties":{"o":{"default":{"k":[1]},"properties":{"x":{"default":"d"},"y":{"default":{"z":[]}}}},
+	  "l":{"default":[{"a":1}]},"s":{"default":"str"}}}`), &ods)
+	ords, err := ods.Resolve(&jsonschema.ResolveOptions{ValidateDefaults: true})
+	if err != nil {
+		panic(err)
+	}
+	var wantOD any = map[string]any{}
+	{
+		seq, _ := ods.Resolve(&jsonschema.ResolveOptions{ValidateDefaults: true})
+		if err := seq.ApplyDefaults(&wantOD); err != nil {
+			panic(err)
+		}
+	}
+	wantODText, _ := json.Marshal(wantOD)
 	var remote jsonschema.Schema
 	json.Unmarshal([]byte(`{"$defs":{"t":{"$anchor":"a","type":"integer"}}}`), &remote)
 	loader := func(u *url.URL) (*jsonschema.Schema, error) { return &remote, nil }
@@ -195,6 +213,18 @@ func runStress(seed int64) Result {
 					addFail("concurrent-defaults", "ApplyDefaults", `{"a":1,"o":{"x":"d"}}`, fmt.Sprint(inst, err))
 					mu.Unlock()
 				}
+				{
+					var inst any = map[string]any{}
+					err := ords.ApplyDefaults(&inst)
+					b, _ := json.Marshal(inst)
+					if err != nil || !bytes.Equal(b, wantODText) {
+						mu.Lock()
+						addFail("concurrent-defaults", "ApplyDefaults inserting container defaults (ValidateDefaults Resolved)", string(wantODText), fmt.Sprint(string(b), err))
+						mu.Unlock()
+					}
+					// the caller owns its instance: write into everything that was inserted
+					scribbleInstance(inst, g*1000+m)
+				}
 				if _, err := vds.Resolve(&jsonschema.ResolveOptions{ValidateDefaults: true}); err != nil {
 					mu.Lock()
 					addFail("concurrent-validate-defaults", "Resolve(ValidateDefaults)", "nil", err.Error())
@@ -235,4 +265,24 @@ func runStress(seed int64) Result {
 	res.Samples = append(res.Samples, map[string]any{"goroutines": G, "calls_per_goroutine": M,
 		"shared": "Resolved (Validate, ApplyDefaults), Schema tree (Marshal, CloneSchemas, Resolve), type caches (For), Loader document"})
 	return res
+}
+
+// scribbleInstance writes into every container of a JSON-shaped instance.
+func scribbleInstance(v any, tag int) {
+	switch x := v.(type) {
+	case map[string]any:
+		for _, c := range x {
+			scribbleInstance(c, tag)
+		}
+		x["scribble"] = tag
+	case []any:
+		for i, c := range x {
+			scribbleInstance(c, tag)
+			if _, isC := c.(map[string]any); !isC {
+				if _, isS := c.([]any); !isS {
+					x[i] = tag
+				}
+			}
+		}
+	}
 }
